@@ -214,6 +214,8 @@ def check_call(ctx, call, backend, args, validate=True):
     if not validate or not ctx.driver_ok:
         return "ok"
     fam = call["family"]
+    if fam == "elementwise" and len(args) != 2:
+        return "ok"      # n-ary forms are folds of the binary operation; covered by the oracle comparison above
     if not (fam in ("id", "elementwise", "dot") or (fam == "reduce" and call["op"] != "logsumexp") or (fam == "preserve_shape" and call["op"] in ("flip", "roll"))):
         return "ok"
     drv = ctx.driver()
